@@ -7,6 +7,7 @@ import tagged_checks
 import dis_checks
 import thr_checks
 import sub_checks
+import gen_checks
 
 CORE_A = ["Model/Base.v", "Model/Dispatch.v", "Model/Routing.v", "Model/DispLane.v", "Gen/DispatchSrc.v", "Gen/ConvSrc.v",
           "Proofs/DispatchProofs.v", "Proofs/RoutingProofs.v", "Proofs/SrcObligations.v"]
@@ -70,6 +71,10 @@ def _c14(v, b, tier):
     sub_checks.check_c14(v, b.t1_summary, 30 * SIZES[tier])
 
 
+def _c17(v, b, tier):
+    gen_checks.check_c17(v, 45 * SIZES[tier])
+
+
 def _c10(v, b, tier):
     tpl_checks.check_c10(v, b.t1_summary, 60 * SIZES[tier], 5)
 
@@ -123,6 +128,13 @@ REGISTRY = {
                     "subclasses included), forbid_extra_keys and validation mode random, 25% with an explicit shuffled subclasses tuple; both the "
                     "automatic variant and the tagged-union strategy; every (K, x) pair with x an instance of K or a descendant; non-trivial = tree of "
                     ">= 3 classes; distinct = (tree, strategy, K, x)"},
+    "C17": {"props_file": "Props/C17.v", "files": ["Model/Base.v", "Model/Generics.v", "Proofs/GenericsProofs.v", "Props/C17.v"],
+            "run": _c17, "t1_sections": [],
+            "rule": "generated generic attrs classes / dataclasses with 1-2 TypeVars and 1-5 attributes whose annotations are drawn from 12 shapes (bare T, "
+                    "List/Optional/Dict/Tuple/nested containers, Annotated inside and at top level, nested generic class, builtin list, concrete), 30% "
+                    "deriving from a parametrised base (concrete, by the child's TypeVar, with a reused TypeVar name); two parametrisations per class used "
+                    "interleaved on one converter; per parametrisation: unstructure, structure, structure of a corrupted payload, each compared with the "
+                    "hand-substituted non-generic clone; non-trivial = class with >= 2 attributes; distinct = (class, parametrisation, round)"},
     "C10": {"props_file": "Props/C10.v", "files": CORE_TPL + ["Props/C10.v"], "run": _c10, "rule": RULE_TPL, "t1_sections": ["gen"]},
     "C07": {"props_file": "Props/C07.v", "files": CORE_A + ["Props/C07.v"], "run": _c07, "rule": RULE_DISP},
     "C08": {"props_file": "Props/C08.v", "files": CORE_A + ["Props/C08.v"], "run": _c08, "rule": RULE_DISP},
